@@ -12,8 +12,12 @@ CLAIM = ('Decided per explored history: a Logger is built for each write mode (D
          'sampled. Also proved: after flush in Direct / buffered mode and - once the flush message has been consumed - in '
          'asynchronous mode, and after stop in asynchronous mode, nothing is pending and the directory holds everything written '
          "(C04_flush_durable_sync, C04_flush_durable_async, C04_stop_durable_async); and, outside the property's scope: a record "
-         'logged after shutdown() in asynchronous mode is accepted and lost (C04_async_dead_write_lost). ')
-THEOREMS = ["C04_stop_durable", "C04_flush_durable_async", "C04_stop_durable_async", "C04_flush_durable_sync", "C04_async_dead_write_lost"]
+         'logged after shutdown() in asynchronous mode is accepted and lost (C04_async_dead_write_lost). The same durability '
+         'theorems are proved for NumbersDirect, TimestampsDirect and Timestamps naming in every write mode: after flush (in '
+         'asynchronous mode once the flush message is consumed) and after stop nothing is pending and the directory - in the '
+         'view of that naming - holds everything written (C04_flush_durable_<naming>, C04_stop_durable_<naming>, '
+         'C04_flush_durable_async_<naming>, C04_stop_durable_async_<naming>). ')
+THEOREMS = ["C04_stop_durable", "C04_flush_durable_async", "C04_stop_durable_async", "C04_flush_durable_sync", "C04_async_dead_write_lost", "C04_flush_durable_numbersdirect", "C04_stop_durable_numbersdirect", "C04_flush_durable_timestampsdirect", "C04_stop_durable_timestampsdirect", "C04_flush_durable_timestamps", "C04_stop_durable_timestamps", "C04_flush_durable_async_numbersdirect", "C04_stop_durable_async_numbersdirect", "C04_flush_durable_async_timestampsdirect", "C04_stop_durable_async_timestampsdirect", "C04_flush_durable_async_timestamps", "C04_stop_durable_async_timestamps"]
 TRUSTED = ["modelled, not verified: BufWriter::flush, the async writer thread joins on shutdown, stdout/stderr buffering of the std writers"]
 ASSUMPTIONS = ["in asynchronous mode no records are logged after shutdown() (the writer thread has ended; C04_async_dead_write_lost)",
                "in asynchronous mode flush() only sends a request: no checkpoint is placed after it"]
